@@ -22,7 +22,7 @@ def main():
     res = histbfs.bfs(c, exe, depth, deadline, env, c.scratch)
     for sig, detail, hist in res.violations:
         c.violation(sig, detail, {"history": hist, "readable": None})
-    if res.depth_completed < 2:
+    if res.depth_completed < 2 and not res.budget_hit and not res.violations:
         c.harness_error("BFS did not complete depth 2")
     c.coverage.update({
         "states": res.states, "transitions": res.transitions,
